@@ -14,7 +14,6 @@ import (
 	"encoding/json"
 	"fmt"
 	"io"
-	"sort"
 	"strings"
 	"testing"
 
@@ -437,7 +436,6 @@ func TestC16_FirstBytes(t *testing.T) {
 		}
 	}
 	locs = append(locs, common.Location{}, common.Location{0}, common.Location{1}, common.Location{15})
-	sort.SliceStable(locs, func(i, j int) bool { return false })
 	n := 0
 	for li, loc := range locs {
 		if li%stats.NShards() != stats.Shard() {
